@@ -217,7 +217,7 @@ func runC02(r *evid.Run) {
 	defer os.RemoveAll(scratch)
 	var states, transitions int64
 	// the reference is schedule independent: every interleaving, every environment stall
-	cfg := fmt.Sprintf("SPECIFICATION AnySpec\nCONSTANTS\n Budget = %d\n Mod = 256\n BasePads = {0}\n OnlyTopos = {\"chain2\", \"chain3\", \"fanin\", \"fanout\", \"fanout2\", \"twoout\", \"merge\", \"sum\", \"threeout\", \"threein\"}\nINVARIANT TypeOK\nINVARIANT Streams\nCHECK_DEADLOCK FALSE\n", r.Pick(10, 14))
+	cfg := fmt.Sprintf("SPECIFICATION AnySpec\nCONSTANTS\n Budget = %d\n Mod = 256\n BasePads = {0}\n OnlyTopos = {\"chain2\", \"chain3\", \"fanin\", \"fanout\", \"fanout2\", \"twoout\", \"split2\", \"merge\", \"sum\", \"threeout\", \"threein\"}\nINVARIANT TypeOK\nINVARIANT Streams\nCHECK_DEADLOCK FALSE\n", r.Pick(10, 14))
 	res, err := tlc.Run(tlc.Options{SpecDir: specDir, Module: "BMFabric", CfgText: cfg, Workers: 12, Timeout: 40 * time.Minute})
 	if err != nil {
 		r.Inconclusive("tlc BMFabric: %v", err)
@@ -230,7 +230,10 @@ func runC02(r *evid.Run) {
 	states += res.Distinct
 	transitions += res.Generated
 	var fabs []fabMachine
-	for i, topo := range []string{"chain2", "chain3", "fanin", "fanout", "fanout2", "twoout", "merge", "sum", "threeout", "threein"} {
+	for i, topo := range []string{"chain2", "chain3", "fanin", "fanout", "fanout2", "twoout", "split2", "merge", "sum", "threeout", "threein"} {
+		if only := os.Getenv("VERIF_C02_TOPO"); only != "" && only != topo { // (development aid)
+			continue
+		}
 		fs, tr, ok := genFabrics(r, scratch, topo, 120, r.Pick(9, 60), r.Seed*43+int64(i))
 		if !ok {
 			return
@@ -259,6 +262,7 @@ func runC02(r *evid.Run) {
 		nlOrigins = append(nlOrigins, nlOrigin{what, topo, nl, text})
 	}
 	var machines, agree, values, bothDeviate int64
+	perEnv := map[string]int64{}
 	bothDeviateExample := ""
 	perTopo := map[string]int64{}
 	for _, f := range fabs {
@@ -347,7 +351,11 @@ func runC02(r *evid.Run) {
 			parts := strings.SplitN(bad, "|", 2)
 			sig := parts[0] + ":" + class
 			ctx["i2rw_completed_with_own_received_high"] = map[string]bool{"simulator": simRefire, "generated_verilog": hdlRefire}
+			ctx["hdl_output_valid_held_after_received"] = run.HdlValidHeld
 			switch {
+			case run.HdlValidHeld:
+				// not the recorded defect: the producer did not withdraw valid when the pinned r2owa does
+				sig = "streams-differ:hdl-holds-valid-after-received:" + class
 			case simRefire && !hdlRefire:
 				sig = "streams-differ:i2rw-refired-in-the-simulator-only"
 			case hdlRefire && !simRefire:
@@ -369,6 +377,7 @@ func runC02(r *evid.Run) {
 		}
 		agree++
 		perTopo[f.Topo]++
+		perEnv[f.EnvMode]++
 		r.Distinct(fmt.Sprintf("%s|%v|%v|%s", f.Topo, f.Pads, f.Shared, f.EnvMode))
 		if machines%17 == 1 {
 			r.Sample(map[string]interface{}{"topology": f.Topo, "pads": f.Pads, "shared": f.Shared, "env": f.EnvMode, "streams": f.Outs})
@@ -450,6 +459,9 @@ func runC02(r *evid.Run) {
 	}
 	for t, c := range perTopo {
 		r.Set("agreeing:"+t, c)
+	}
+	for e, c := range perEnv {
+		r.Set("agreeing-under-environment:"+e, c)
 	}
 	r.Set("evaluations", machines)
 	_ = procbuilder.Allopcodes
@@ -613,6 +625,9 @@ type fabricRun struct {
 	// the root events of the recorded handshake defects (C04), observed during the run:
 	SimRefire, HdlRefire bool // an i2rw completed while the processor's own received line was still high
 	SimStale             bool // an r2owa completed in the tick it was issued (against a stale received line)
+	// a processor output of the generated hardware kept valid high for more than three clocks while its
+	// received line was high (the pinned r2owa lowers it in the clock after the instruction is over)
+	HdlValidHeld bool
 }
 
 func fabricInput(port, k int) uint64 { return uint64(10*(port+1)+1+k) % 256 }
@@ -627,6 +642,13 @@ func runFabric(f fabMachine, bm *bondmachine.Bondmachine, netlist func(d *vlog.D
 		hold = 3
 	case "slow-ack":
 		ack = 2
+	case "stalls-outputs":
+		ack = 30
+		envAckOddOnly = true
+		defer func() { envAckOddOnly = false }()
+	case "serial":
+		envSerial = true
+		defer func() { envSerial = false }()
 	}
 	want := 0
 	for _, o := range f.Outs {
@@ -713,10 +735,24 @@ func runFabric(f fabMachine, bm *bondmachine.Bondmachine, netlist func(d *vlog.D
 			}
 		}
 	}
+	held := map[string]int{}
 	hdlClockHook = func(s *vlog.Sim) {
 		for p := range f.Progs {
 			if pc, _ := s.Get(procPath(p) + "_pc"); hHigh[p] && pc != hPc[p] {
 				out.HdlRefire = true
+			}
+			for o := 0; o < 3; o++ {
+				name := procPath(p) + "o" + strconv.Itoa(o)
+				v, ok1 := s.Get(name + "_val")
+				rc, ok2 := s.Get(name + "_received")
+				if ok1 && ok2 && v == 1 && rc == 1 {
+					held[name]++
+					if held[name] > 3 {
+						out.HdlValidHeld = true
+					}
+				} else {
+					held[name] = 0
+				}
 			}
 		}
 	}
